@@ -28,6 +28,7 @@ class Sched:
         self.log = []        # (tid, label) in grant order
         self.threads = {}
         self.progress = 0
+        self.waitpred = {}   # tid -> predicate of a logically blocked thread
 
     # ---------------------------------------------------------------- worker side
     def tid(self):
@@ -57,10 +58,12 @@ class Sched:
         with self.cv:
             self.state[tid] = "waiting"
             self.label[tid] = label
+            self.waitpred[tid] = pred
             self.progress += 1
             self.cv.notify_all()
             while not pred():
                 self.cv.wait()
+            self.waitpred.pop(tid, None)
             self.state[tid] = "running"
             self.progress += 1
             self.cv.notify_all()
@@ -88,7 +91,15 @@ class Sched:
 
     # ---------------------------------------------------------------- controller side
     def _settled(self):
-        return all(s in ("parked", "waiting", "done") for s in self.state.values())
+        # a 'waiting' thread whose predicate already holds is about to wake up: not settled
+        for t, s in self.state.items():
+            if s == "waiting":
+                p = self.waitpred.get(t)
+                if p is not None and p():
+                    return False
+            elif s not in ("parked", "done"):
+                return False
+        return True
 
     def parked(self):
         return sorted(t for t, s in self.state.items() if s == "parked")
